@@ -160,6 +160,8 @@ func newWorker(w wspec, idx int, env *phaseEnv, mat *material) worker {
 		return newLogWorker(w, idx, env)
 	case kAead:
 		return newAeadWorker(w, idx, env)
+	case kOwn:
+		return newOwnWorker(w, idx, env)
 	}
 	panic("harness: unknown worker kind " + w.Kind)
 }
@@ -172,10 +174,14 @@ type chunkSrc struct {
 	pos   int
 	chunk int
 	y     int
+	fail  error // what the source returns once data is used up (nil: io.EOF)
 }
 
 func (s *chunkSrc) Read(p []byte) (int, error) {
 	if s.pos >= len(s.data) {
+		if s.fail != nil {
+			return 0, s.fail
+		}
 		return 0, io.EOF
 	}
 	if len(p) == 0 {
@@ -198,6 +204,11 @@ func newSrc(data []byte, chunk, y int) io.Reader {
 		return bytes.NewReader(data)
 	}
 	return &chunkSrc{data: data, chunk: chunk, y: y}
+}
+
+// newFailSrc delivers the first `permille` thousandths of data and then fails with an error of its own.
+func newFailSrc(data []byte, permille, chunk, y int, fail error) io.Reader {
+	return &chunkSrc{data: data[:len(data)*permille/1000], chunk: chunk, y: y, fail: fail}
 }
 
 // consume reads r to its end (chunk 0: io.ReadAll) and yields between reads.
@@ -246,9 +257,11 @@ func consume(r io.Reader, chunk, y int, out, buf []byte) ([]byte, error) {
 
 type encWorker struct {
 	w       wspec
+	idx     int
 	env     *phaseEnv
 	msg     []byte
 	keyName string
+	decName string // fail=deckeyname-over: the DecryptionKeyName option
 	mask    []byte // xor wrap
 	kek     jwk.Key
 	pad     []byte
@@ -307,7 +320,7 @@ func withKid(k jwk.Key, kid string) jwk.Key {
 }
 
 func newEncWorker(w wspec, idx int, env *phaseEnv, mat *material) *encWorker {
-	e := &encWorker{w: w, env: env}
+	e := &encWorker{w: w, idx: idx, env: env}
 	if mat.km == nil {
 		mat.msg = vk.Expand(w.Seed, w.Len)
 		mat.km = vk.Expand(w.Seed^0x6b65796d6174, 32+32+32+7+w.WrapPad+w.KeyName)
@@ -326,10 +339,18 @@ func newEncWorker(w wspec, idx int, env *phaseEnv, mat *material) *encWorker {
 		kn = append(kn, keyNameAlphabet[int(b)%len(keyNameAlphabet)])
 	}
 	e.keyName = string(kn)
+	if w.Fail == "deckeyname-over" { // an ordinary key name; the long one is the name of the decryption key
+		e.keyName, e.decName = string(kn[:min(len(kn), 24)]), string(kn)
+	}
 	e.algName = algResolved(w.Alg)
 	e.ptBuf = make([]byte, 0, w.Len+600)
 	if w.Mode == "rt" {
-		e.ctBuf = make([]byte, 0, w.Len+(w.Len/65536+1)*16+2*(w.KeyName+w.WrapPad)+800)
+		hdr := 2 * (w.KeyName + w.WrapPad)
+		switch w.Fail {
+		case "keyname-over", "deckeyname-over", "wfk-over": // no document is expected
+			hdr = 0
+		}
+		e.ctBuf = make([]byte, 0, w.Len+(w.Len/65536+1)*16+hdr+800)
 	}
 	if w.Cons > 0 {
 		e.rdBuf = make([]byte, w.Cons)
@@ -385,12 +406,28 @@ func (e *encWorker) unwrapBytes(wfk []byte) ([]byte, error) {
 
 func (e *encWorker) wrapFn(plaintextKey []byte, algorithm, keyName string, nonce []byte) ([]byte, []byte, error) {
 	if algorithm != e.algName || keyName != e.keyName {
-		e.note += fmt.Sprintf(" wrap-args(alg=%q name=%q)", algorithm, keyName)
+		e.note += fmt.Sprintf(" wrap-args(alg=%q name=%q)", algorithm, keyName[:min(len(keyName), 300)])
 	}
 	yield(e.w.Yield)
 	e.fk = bytes.Clone(plaintextKey)
+	switch e.w.Fail {
+	case "wrap-err":
+		e.wfk = nil
+		return nil, nil, fmt.Errorf("vault of w%d: wrapping with key %q denied", e.idx, keyName[:min(len(keyName), 16)])
+	case "wrap-empty":
+		e.wfk = []byte{}
+		return []byte{}, nil, nil
+	}
 	e.wfk = e.wrapBytes(plaintextKey)
 	return bytes.Clone(e.wfk), nil, nil
+}
+
+// unwrapName is the key name kit must hand to the unwrap callback.
+func (e *encWorker) unwrapName() string {
+	if e.decName != "" {
+		return e.decName
+	}
+	return e.keyName
 }
 
 // unwrapFn runs between kit's header parsing and its MAC verification: this is
@@ -399,8 +436,8 @@ func (e *encWorker) unwrapFn(wrappedKey []byte, algorithm, keyName string, nonce
 	if e.env.active[actEnc].Load() > 1 {
 		e.env.unwrapWhileOthers.Add(1)
 	}
-	if algorithm != e.algName || keyName != e.keyName {
-		e.note += fmt.Sprintf(" unwrap-args(alg=%q name=%q)", algorithm, keyName)
+	if algorithm != e.algName || keyName != e.unwrapName() {
+		e.note += fmt.Sprintf(" unwrap-args(alg=%q name=%q)", algorithm, keyName[:min(len(keyName), 300)])
 	}
 	if !bytes.Equal(wrappedKey, e.wfk) {
 		e.note += " unwrap-got-foreign-wfk(" + sum(wrappedKey) + ")"
@@ -433,9 +470,27 @@ func (e *encWorker) rep(r int) string {
 			c := enc.CipherChaCha20Poly1305
 			opts.Cipher = &c
 		}
-		rd, err := enc.Encrypt(newSrc(e.msg, w.Src, w.Yield), opts)
+		src := newSrc(e.msg, w.Src, w.Yield)
+		switch w.Fail {
+		case "deckeyname-over":
+			opts.DecryptionKeyName = e.decName
+		case "alg-unknown":
+			opts.Algorithm = enc.KeyAlgorithm(w.FailArg)
+		case "cipher-unknown":
+			c := enc.Cipher(w.FailArg)
+			opts.Cipher = &c
+		case "keyname-empty":
+			opts.KeyName = ""
+		case "wrapfn-nil":
+			opts.WrapKeyFn = nil
+		case "omit-keyname":
+			opts.OmitKeyName = true
+		case "src-err":
+			src = newFailSrc(e.msg, w.FailAt, w.Src, w.Yield, fmt.Errorf("plaintext source of w%d: connection reset", e.idx))
+		}
+		rd, err := enc.Encrypt(src, opts)
 		if err != nil || rd == nil {
-			return fmt.Sprintf("Encrypt callErr=%v", err)
+			return fmt.Sprintf("Encrypt callErr=%v%s", err, e.note)
 		}
 		ct, serr := consume(rd, w.Cons, w.Yield, e.ctBuf[:0], e.rdBuf)
 		e.ctBuf = ct
@@ -453,7 +508,16 @@ func (e *encWorker) rep(r int) string {
 	}
 	doc = e.tamper(doc)
 	yield(w.Yield)
-	rd, err := enc.Decrypt(newSrc(doc, w.Src, w.Yield), enc.DecryptOptions{UnwrapKeyFn: e.unwrapFn})
+	dsrc, dopts := newSrc(doc, w.Src, w.Yield), enc.DecryptOptions{UnwrapKeyFn: e.unwrapFn}
+	switch w.Fail {
+	case "doc-cut":
+		dsrc = newSrc(doc[:len(doc)*w.FailAt/1000], w.Src, w.Yield)
+	case "doc-src-err":
+		dsrc = newFailSrc(doc, w.FailAt, w.Src, w.Yield, fmt.Errorf("document source of w%d: connection reset", e.idx))
+	case "unwrapfn-nil":
+		dopts.UnwrapKeyFn = nil
+	}
+	rd, err := enc.Decrypt(dsrc, dopts)
 	if err != nil || rd == nil {
 		fmt.Fprintf(&sb, " | Decrypt callErr=%v%s", err, e.note)
 		return sb.String()
@@ -705,6 +769,7 @@ type symWorker struct {
 	w     wspec
 	spec  refcrypto.SymSpec
 	key   jwk.Key
+	long  jwk.Key // fail=key-size: the worker's key with eight bytes too many
 	raw   []byte
 	nonce []byte
 	aad   []byte
@@ -720,6 +785,9 @@ func newSymWorker(w wspec, idx int, env *phaseEnv) *symWorker {
 	s := &symWorker{w: w, spec: spec, env: env}
 	s.raw = vk.Expand(w.Seed^0x73796d, spec.Key)
 	s.key = withKid(mustJWK(bytes.Clone(s.raw)), w.Kid)
+	if w.Fail == "key-size" {
+		s.long = withKid(mustJWK(append(bytes.Clone(s.raw), vk.Expand(w.Seed^0x6c6f6e67, 8)...)), w.Kid)
+	}
 	if spec.Nonce >= 0 {
 		s.nonce = vk.Expand(w.Seed^0x6e6f6e6365, spec.Nonce)
 	}
@@ -741,18 +809,37 @@ func (s *symWorker) rep(r int) string {
 	defer s.env.leave(-1)
 	pt := vk.Expand(s.w.Seed+uint64(r)*104729, s.n)
 	keep := bytes.Clone(pt)
-	ct, tag, err := kit.Encrypt(pt, s.w.CAlg, s.key, s.nonce, s.aad)
+	alg, key, nonce := s.w.CAlg, s.key, s.nonce
+	switch s.w.Fail {
+	case "alg-unknown":
+		alg += "-X"
+	case "nonce-size":
+		nonce = append(bytes.Clone(nonce), 0x5a)
+	case "key-size":
+		key = s.long
+	}
+	ct, tag, err := kit.Encrypt(pt, alg, key, nonce, s.aad)
 	res := fmt.Sprintf("Encrypt err=%v ct=%s tag=%s", err, sum(ct), sum(tag))
 	if err != nil {
 		return res
 	}
 	// the result under the worker's OWN key, as an independent implementation computes it (a key ID is a label,
 	// nothing else of the pipeline depends on it)
-	if rct, rtag, rerr := s.spec.Encrypt(s.raw, s.nonce, keep, s.aad); rerr == nil && !(bytes.Equal(rct, ct) && bytes.Equal(rtag, tag)) {
+	if rct, rtag, rerr := s.spec.Encrypt(s.raw, s.nonce, keep, s.aad); rerr == nil && !(bytes.Equal(rct, ct) && bytes.Equal(rtag, tag)) &&
+		(!s.w.failing() || s.w.Fail == "tag") {
 		res += fmt.Sprintf(" BROKEN: not the %s ciphertext and tag of this message under the worker's own key (reference ct=%s tag=%s)", s.w.CAlg, sum(rct), sum(rtag))
 	}
 	s.w.pause()
-	back, err := kit.Decrypt(ct, s.w.CAlg, s.key, s.nonce, tag, s.aad)
+	if s.w.Fail == "tag" { // Decrypt is given a damaged copy
+		if len(tag) > 0 {
+			tag = bytes.Clone(tag)
+			tag[int(s.w.Seed%uint64(len(tag)))] ^= 0x04
+		} else if len(ct) > 0 {
+			ct = bytes.Clone(ct)
+			ct[len(ct)-1] ^= 0x04
+		}
+	}
+	back, err := kit.Decrypt(ct, alg, key, nonce, tag, s.aad)
 	res += fmt.Sprintf(" | Decrypt err=%v roundTrip=%v inputIntact=%v", err, bytes.Equal(back, keep), bytes.Equal(pt, keep))
 	return res
 }
@@ -806,7 +893,11 @@ func (s *sigWorker) rep(r int) string {
 		n = s.w.PtLen
 	}
 	digest := vk.Expand(s.w.Seed+uint64(r)*15485863, n)
-	sig, err := kit.SignPrivateKey(digest, s.w.CAlg, s.priv)
+	alg := s.w.CAlg
+	if s.w.Fail == "alg-unknown" {
+		alg += "-X"
+	}
+	sig, err := kit.SignPrivateKey(digest, alg, s.priv)
 	res := fmt.Sprintf("Sign err=%v", err)
 	if err != nil {
 		return res
@@ -862,7 +953,11 @@ func (x *rsaWorker) rep(r int) string {
 		n = m
 	}
 	pt := vk.Expand(x.w.Seed+uint64(r)*32452843, n)
-	ct, err := kit.EncryptPublicKey(pt, x.w.CAlg, x.priv, x.label)
+	alg := x.w.CAlg
+	if x.w.Fail == "alg-unknown" {
+		alg += "-X"
+	}
+	ct, err := kit.EncryptPublicKey(pt, alg, x.priv, x.label)
 	res := fmt.Sprintf("Encrypt err=%v ctLen=%d", err, len(ct))
 	if err != nil {
 		return res
